@@ -162,7 +162,7 @@ Next1 ==
                [] e.op = "shutdown" ->
                     /\ Flag(If(p.alive # {}, "WorkersAliveAfterShutdown"))
                     /\ p' = [p EXCEPT !.inflight = p.inflight - 1, !.active = FALSE]
-               [] e.op = "start" -> Flag(If(e.rc # 0, "StartFailed")) /\ p' = p
+               [] e.op = "start" -> Flag(If(e.rc # 0 /\ "may" \notin DOMAIN e, "StartFailed")) /\ p' = p
                [] e.op = "state" -> Flag(If(e.st = RUNNING /\ p.alive = {} /\ p.active, "RunningWithoutWorkers")) /\ p' = p
                [] OTHER -> p' = p /\ NoFlag)
        [] k = "Api2" -> (IF e.ph = "call"
